@@ -173,16 +173,20 @@ class AbstractSpecification(object):
 
     @property
     def sampling_violation_counter(self):
+        # a specification that is both an online and an offline monitor counts
+        # the gaps seen by update() and those seen by evaluate()
+        counter = None
         if hasattr(self, 'online_interpreter'):
             if isinstance(self.online_interpreter, DiscreteTimeInterpreter):
-                return self.online_interpreter.sampling_violation_counter
+                counter = self.online_interpreter.sampling_violation_counter
             else:
                 RTAMTException('only discrete time has sampling_violation_counter')
         if hasattr(self, 'offline_interpreter'):
             if isinstance(self.offline_interpreter, DiscreteTimeInterpreter):
-                return self.offline_interpreter.sampling_violation_counter
+                counter = (counter or 0) + self.offline_interpreter.sampling_violation_counter
             else:
                 RTAMTException('only discrete time has sampling_violation_counter')
+        return counter
 
     @property
     def sampling_tolerance(self):
